@@ -119,6 +119,8 @@ def run_cli(argv, stdin_data=None):
     except SystemExit as e:
         status = e.code if isinstance(e.code, int) else (0 if e.code is None else 1)
     except BaseException as e:  # noqa: BLE001
+        if type(e).__name__ == "WidenStop":      # the harness's own timer, not something the tool did
+            raise
         status, exc = -1, type(e).__name__
     finally:
         sys.argv, sys.stdin, sys.stdout, sys.stderr = old
